@@ -244,6 +244,8 @@ type observation struct {
 	ErrKind string // nil | exit:N | signal:N | processdone | cancelled | timeout | notfound | other
 	ErrText string
 	Text    string
+	Late    []logEntry // messages which reached the logger AFTER Execute / Output had returned (re-inspected after a settle delay)
+	rec     *rec
 	// adapter
 	PerWrite [][]logEntry
 	Flushed  []logEntry
@@ -356,6 +358,7 @@ func waitFor(path string, max time.Duration) bool {
 func runChild(sc scenario, attempt int) observation {
 	var o observation
 	r := &rec{}
+	o.rec = r
 	cmd, args, ready := sc.command()
 	settle := []time.Duration{150 * time.Millisecond, 600 * time.Millisecond, 2 * time.Second}[attempt]
 	ctx := context.Background()
@@ -438,6 +441,22 @@ func runChild(sc scenario, attempt int) observation {
 	}
 	o.Log = r.snapshot()
 	return o
+}
+
+// settleDelay: how long after Execute / Output returned the recording logger is inspected again. Anything the library
+// logs on behalf of a run after that run has returned (e.g. a second end message from the monitoring goroutine's Stop)
+// shows up a few milliseconds later; the delay is >= 50x that.
+const settleDelay = 300 * time.Millisecond
+
+// collectLate must be called at least settleDelay after the run returned.
+func (o *observation) collectLate() {
+	if o.rec == nil {
+		return
+	}
+	all := o.rec.snapshot()
+	if len(all) > len(o.Log) {
+		o.Late = all[len(o.Log):]
+	}
 }
 
 // ---------------------------------------------------------------------------------------------------------------------
@@ -690,6 +709,24 @@ func oracleChild(sc scenario, o observation) []verdict {
 	if v := compareLines("stderr", gotErr, wantErr); v != nil {
 		vs = append(vs, *v)
 	}
+	// --- nothing is logged on behalf of the run once it has returned: exactly one end message, and it is the last
+	if len(o.Late) > 0 {
+		nfw := 0
+		desc := ""
+		for i, e := range o.Late {
+			if sc.isFramework(e) {
+				nfw++
+			}
+			if i < 4 {
+				desc += fmt.Sprintf(" [%s %q]", e.Ch, clip(e.Msg))
+			}
+		}
+		if nfw > 0 {
+			add("end-message-after-return", fmt.Sprintf("%d message(s) were logged after the run had returned, %d of them start/end messages: a second success / failure message follows the one logged by Execute:%s", len(o.Late), nfw, desc))
+		} else {
+			add("message-after-return", fmt.Sprintf("%d message(s) were logged after the run had returned (after its end message):%s", len(o.Late), desc))
+		}
+	}
 	// --- Output()
 	if sc.Kind == "output" {
 		text := o.Text
@@ -852,10 +889,11 @@ func (sc scenario) coqCase(o observation) string {
 	}
 	ob, eb := sc.expectedBytes()
 	ctx, outcome := sc.coqOutcome()
+	full := append(append([]logEntry(nil), o.Log...), o.Late...) // everything the logger ever received for this run
 	if sc.Kind == "output" {
-		return fmt.Sprintf("COutput %s %s %s %s %s %s", outcome, coqBytes(ob), coqBytes(eb), sc.coqLog(o.Log), coqBytes([]byte(o.Text)), coqErrk(o.ErrKind))
+		return fmt.Sprintf("COutput %s %s %s %s %s %s", outcome, coqBytes(ob), coqBytes(eb), sc.coqLog(full), coqBytes([]byte(o.Text)), coqErrk(o.ErrKind))
 	}
-	return fmt.Sprintf("CExec true %s %s %s %s %s %s", ctx, outcome, coqBytes(ob), coqBytes(eb), sc.coqLog(o.Log), coqErrk(o.ErrKind))
+	return fmt.Sprintf("CExec true %s %s %s %s %s %s", ctx, outcome, coqBytes(ob), coqBytes(eb), sc.coqLog(full), coqErrk(o.ErrKind))
 }
 
 // ---------------------------------------------------------------------------------------------------------------------
@@ -1181,6 +1219,10 @@ func randomChild(r *h.Run) scenario {
 	default:
 		sc.Signal = []int{1, 2, 9, 15, 10, 14}[r.Rng.Intn(6)]
 	}
+	// some children are interrupted while they are still running (they hang after their writes)
+	if sc.Kind == "exec" && sc.Exit == 0 && sc.Signal == 0 && r.Rng.Intn(10) == 0 {
+		sc.Cancel = []string{"ctx", "method", "deadline"}[r.Rng.Intn(3)]
+	}
 	return sc
 }
 
@@ -1197,8 +1239,12 @@ func execute(sc scenario, attempt int) (observation, []verdict) {
 		return o, oracleAdapter(sc, o)
 	}
 	o := runChild(sc, attempt)
-	vs := oracleChild(sc, o)
-	return o, vs
+	if attempt > 0 { // isolated re-run: settle here (first attempts settle together, see main)
+		time.Sleep(settleDelay)
+		o.collectLate()
+		return o, oracleChild(sc, o)
+	}
+	return o, nil // judged by main after the common settle delay
 }
 
 type result struct {
@@ -1264,6 +1310,14 @@ func main() {
 		}(i)
 	}
 	wg.Wait()
+	// every run has returned: wait once for all of them, look at the recording loggers again, then judge
+	time.Sleep(settleDelay)
+	for i := range scs {
+		if scs[i].Kind != "adapter" {
+			results[i].o.collectLate()
+			results[i].vs = oracleChild(scs[i], results[i].o)
+		}
+	}
 	// a failure of a run which depends on timing (interrupting a child) is confirmed in isolation, with longer waits
 	for i := range scs {
 		if len(results[i].vs) > 0 && timingDependent(scs[i]) {
